@@ -8,6 +8,7 @@
      a newly signed prevote            => PrevoteOKP (lock before or after the step)
      a newly signed precommit for v    => LockOKP: +2/3 prevotes for v in that round seen
      a lock acquired / moved           => LockOKP for the new (round, block)
+     a precommit for a block           => the node is then locked on that block at that round
      a lock released                   => UnlockOKP: a later polka for something else seen
      a block committed at height h     => DecideOKP: +2/3 precommits for it in one round seen
      two signatures for one (type, height, round) must be for the same value
@@ -82,6 +83,8 @@ TStep ==
                      \/ PrevoteOKP(power, st0.lv, AtH(pp1, h), AtH(pv1, h), s.r, s.v)
                      \/ PrevoteOKP(power, IF sameH THEN st1.lv ELSE st0.lv, AtH(pp1, h), AtH(pv1, h), s.r, s.v)
          gPrecommit == \A s \in sg : (s.kind = "precommit" /\ s.h = h /\ s.v # Nil) => LockOKP(power, AtH(pv1, h), s.r, s.v)
+         \* enterPrecommit: precommitting a block (re)locks it AT THIS ROUND (Consensus.tla Precommit, first outcome)
+         gRelock == \A s \in sg : (s.kind = "precommit" /\ s.h = h /\ s.v # Nil /\ sameH) => (st1.lr = s.r /\ st1.lv = s.v)
          gLock == (sameH /\ st1.lv # Nil /\ <<st1.lr, st1.lv>> # <<st0.lr, st0.lv>>) => LockOKP(power, AtH(pv1, h), st1.lr, st1.lv)
          gUnlock == (sameH /\ st0.lv # Nil /\ st1.lv = Nil) => UnlockOKP(power, AtH(pv1, h), st0.lr, st0.lv, st1.r)
          gDecide == \A d \in newDec : DecideOKP(power, {x \in pc1 : ToString(x.h) = d[1]}, d[2])
@@ -90,6 +93,7 @@ TStep ==
        \* invariant GuardsHold together with the line number
        /\ viol' = (IF gEquiv THEN {} ELSE {"equivocation"}) \cup (IF gPrevote THEN {} ELSE {"prevote-against-lock-or-without-block"})
                    \cup (IF gPrecommit THEN {} ELSE {"precommit-without-polka"}) \cup (IF gLock THEN {} ELSE {"lock-without-polka"})
+                   \cup (IF gRelock THEN {} ELSE {"precommit-does-not-lock-at-its-round"})
                    \cup (IF gUnlock THEN {} ELSE {"unlock-without-later-polka"}) \cup (IF gDecide THEN {} ELSE {"commit-without-two-thirds-precommits"})
        /\ decided' = [k \in DOMAIN decided \cup {d[1] : d \in newDec} |->
                         (IF k \in DOMAIN decided THEN decided[k] ELSE {}) \cup {d[2] : d \in {x \in newDec : x[1] = k}}]
